@@ -52,8 +52,10 @@ func VarTimeZone(name []byte) StatusVar {
 	return StatusVar{Code: QTimeZone, Data: append([]byte{byte(len(name))}, name...)}
 }
 
-func VarLCTimeNames(v uint16) StatusVar     { return StatusVar{Code: QLCTimeNames, Data: le16(nil, v)} }
-func VarCharsetDatabase(v uint16) StatusVar { return StatusVar{Code: QCharsetDatabase, Data: le16(nil, v)} }
+func VarLCTimeNames(v uint16) StatusVar { return StatusVar{Code: QLCTimeNames, Data: le16(nil, v)} }
+func VarCharsetDatabase(v uint16) StatusVar {
+	return StatusVar{Code: QCharsetDatabase, Data: le16(nil, v)}
+}
 func VarTableMapForUpdate(v uint64) StatusVar {
 	return StatusVar{Code: QTableMapForUpdate, Data: le64(nil, v)}
 }
